@@ -46,6 +46,9 @@ def balanced_colour_line(r):
     """an input line carrying its own, balanced, escape sequences"""
     w = [gdiff.gline(r) for _ in range(3)]
     k = r.random()
+    if k < 0.2:
+        # CRLF text coloured by git / diff: the reset comes after the carriage return
+        return r.choice(["\x1b[31m< ", "\x1b[1;32m", ""]) + w[0].replace("\x1b", "") + "x\r" + r.choice(["\x1b[m", "\x1b[0m", OSC_END if False else "\x1b[0m"])
     if k < 0.4:
         return w[0] + "\x1b[1;35m" + w[1] + "\x1b[0m" + w[2]
     if k < 0.7:
